@@ -18,6 +18,8 @@ MUTANTS = {
  'm11_aux_citations_deduplicated': ('pybtex/auxfile.py', "            self.citations.append(key)\n", "            if key not in self.citations:\n                self.citations.append(key)\n"),
  'm12_second_bibstyle_wins': ('pybtex/auxfile.py', "        if self.style is not None:\n            report_error(AuxDataError(r'illegal, another \\bibstyle command', self.context))\n        else:\n            self.style = style", "        if self.style is not None:\n            report_error(AuxDataError(r'illegal, another \\bibstyle command', self.context))\n        self.style = style"),
  'm13_string_entry_point_ignores_citations': ('pybtex/__init__.py', "        return self.format_from_files(inputs, *args, **kwargs)", "        kwargs.pop('citations', None)\n        return self.format_from_files(inputs, *args, **kwargs)"),
+ 'm14_cli_min_crossrefs_dropped': ('pybtex/__main__.py', "        engine.make_bibliography(filename, **options)", "        options.pop('min_crossrefs', None)\n        engine.make_bibliography(filename, **options)"),
+ 'm15_cli_style_option_dropped': ('pybtex/__main__.py', "        ext = path.splitext(filename)[1]", "        options['style'] = None\n        ext = path.splitext(filename)[1]"),
  # must NOT alarm: renamed local, reordered independent statements, reworded messages
  'h1_harmless_refactoring': [
    ('pybtex/__init__.py', "        base_filename = path.splitext(aux_filename)[0]\n        bib_filenames = [filename + bib_format.default_suffix for filename in aux_data.data]\n",
@@ -47,7 +49,7 @@ def run(name):
         m = re.search(r'replay=(\S+)', l)
         try:
             r = json.load(open(m.group(1)))
-            what.append('%s fn=%s %s%s' % (r['kind'], r.get('fn'), 'FAILING-INPUT ' if r.get('failing_input_found') else '', str(r.get('property_failure') or r.get('what'))[:160]))
+            what.append('%s fn=%s %s%s' % (r['kind'], r.get('fn'), 'FAILING-INPUT ' if r.get('failing_input_found') else '', str(r.get('property_failure') or r.get('what') or (r.get('case'), r.get('detail')))[:200]))
         except Exception as e:
             what.append(l)
     print('%-44s exit=%d violations=%d' % (name, p.returncode, len(viol)))
